@@ -156,10 +156,11 @@ def prev_blocks_global(function: "Function", block: "BasicBlock") -> List["Basic
     assert block.teal is not None
     if block == block.subroutine.entry:
         # if the block is the entry of the subroutine, return all blocks calling the subroutine
+        # and the blocks of the subroutine that jump back to its first block.
         if block.subroutine != function.main:
-            return function.caller_blocks(block.subroutine)
-        # the block is the main entry block of the contract
-        return []
+            return function.caller_blocks(block.subroutine) + block.prev
+        # the block is the main entry block of the contract: only jumps back to the first block
+        return block.prev
     if block.is_sub_return_point:
         # if the block is the return point of the subroutine, return all retsub blocks of the subroutine.
         # The block can also be the target of a jump (label right after the callsub): keep those predecessors.
